@@ -4,6 +4,7 @@ import (
 	"go/constant"
 	"go/token"
 	"go/types"
+	"strings"
 
 	"golang.org/x/tools/go/ssa"
 
@@ -141,4 +142,137 @@ func presenceHandlesKind(fn *ssa.Function, kind int64) bool {
 		}
 	}
 	return false
+}
+
+// R-STOREALL: the struct mapper walks the supplied (already validated) properties and stores each into its field. Every
+// way round that loop must pass a reflect.Value.Set (directly, or inside a closure invoked on the way): an iteration
+// that goes round without storing drops a supplied value - for a pointer field, whose zero value means "not supplied",
+// an explicit false / 0 / "" then reads back as absent (the default reappears, a required property is "missing").
+// Ways round that first established that the field's kind is not Pointer are not obligations (skipping a zero value for
+// a non-pointer field changes nothing).
+func (c *Ctx) ruleStoreAll(rule string) {
+	n := 0
+	ptrKind := int64(-1)
+	if rp := c.M.Prog.ImportedPackage("reflect"); rp != nil {
+		if k := rp.Const("Pointer"); k != nil {
+			if v, ok := constant.Int64Val(k.Value.Value); ok {
+				ptrKind = v
+			}
+		}
+	}
+	for _, fn := range c.M.SortedFuncs(c.scopePkg("schema")) {
+		// the field lookup through a StructField descriptor, inside a loop
+		var lookup *ssa.Call
+		for _, b := range fn.Blocks {
+			for _, in := range b.Instrs {
+				if call, ok := in.(*ssa.Call); ok && blockInLoop(b) {
+					switch reflectValueMethod(call) {
+					case "FieldByIndexErr", "FieldByIndex", "FieldByName":
+						if len(call.Call.Args) == 2 && fromStructField(call.Call.Args[1]) {
+							lookup = call
+						}
+					}
+				}
+			}
+		}
+		if lookup == nil {
+			continue
+		}
+		n++
+		k := key(rule, c.M.Key(fn), "every way round the field loop stores the supplied value")
+		stores := func(b *ssa.BasicBlock) bool {
+			for _, in := range b.Instrs {
+				call, ok := in.(*ssa.Call)
+				if !ok {
+					continue
+				}
+				if m := reflectValueMethod(call); m == "Set" || strings.HasPrefix(m, "Set") {
+					return true
+				}
+				var callee *ssa.Function
+				switch v := call.Call.Value.(type) {
+				case *ssa.Function:
+					callee = v
+				case *ssa.MakeClosure:
+					callee, _ = v.Fn.(*ssa.Function)
+				}
+				if callee != nil && callee.Parent() == fn {
+					for _, cb := range callee.Blocks {
+						for _, cin := range cb.Instrs {
+							if cc, ok := cin.(*ssa.Call); ok && strings.HasPrefix(reflectValueMethod(cc), "Set") {
+								return true
+							}
+						}
+					}
+				}
+			}
+			return false
+		}
+		notPointerEdge := func(p, s *ssa.BasicBlock) bool {
+			if len(p.Instrs) == 0 || ptrKind < 0 {
+				return false
+			}
+			ifi, ok := p.Instrs[len(p.Instrs)-1].(*ssa.If)
+			if !ok || p.Succs[0] == p.Succs[1] {
+				return false
+			}
+			bo, ok := ifi.Cond.(*ssa.BinOp)
+			if !ok || (bo.Op != token.EQL && bo.Op != token.NEQ) {
+				return false
+			}
+			kc, _ := bo.X.(*ssa.Call)
+			cv, isC := core.ConstInt(bo.Y)
+			if kc == nil || !isC || reflectValueMethod(kc) != "Kind" || cv != ptrKind {
+				return false
+			}
+			onTrue := p.Succs[0] == s
+			return (bo.Op == token.EQL) != onTrue
+		}
+		// the loop header: the innermost block that dominates the lookup and can be reached again from it
+		var header *ssa.BasicBlock
+		for d := lookup.Block(); d != nil; d = d.Idom() {
+			for _, p := range d.Preds {
+				if d.Dominates(p) {
+					header = d
+				}
+			}
+			if header != nil {
+				break
+			}
+		}
+		if header == nil {
+			c.R.Bad(rule, k, c.M.InstrPos(lookup), "cannot find the loop around the field lookup", "undecided = fail")
+			continue
+		}
+		// is there a way from the lookup back to the header that avoids every storing block?
+		seen := map[*ssa.BasicBlock]bool{}
+		var escape *ssa.BasicBlock
+		var walk func(b *ssa.BasicBlock)
+		walk = func(b *ssa.BasicBlock) {
+			if seen[b] || escape != nil || stores(b) {
+				return
+			}
+			seen[b] = true
+			for _, s := range b.Succs {
+				if notPointerEdge(b, s) {
+					continue
+				}
+				if s == header {
+					escape = b
+					return
+				}
+				walk(s)
+			}
+		}
+		walk(lookup.Block())
+		if escape == nil {
+			c.R.Ok(rule, k, c.M.InstrPos(lookup), "struct mapping loop", "no way from the field lookup back to the loop header avoids the store (returns aside)")
+		} else {
+			c.R.Bad(rule, k, c.M.Pos(escape.Instrs[len(escape.Instrs)-1].Pos()), "an iteration of the struct mapping loop can go round without storing the supplied value",
+				"a supplied property is dropped; for a pointer field nil means \"not supplied\", so an explicit false / 0 / \"\" reads back as absent: the default reappears on the next round trip, a required property fails Validate")
+		}
+	}
+	if n == 0 {
+		c.R.Unresolved(rule, "the struct mapping loop (field lookup through a StructField descriptor inside a loop)")
+	}
 }
